@@ -555,6 +555,7 @@ package phase0
 //@     invariant ctx_t >= old(ctx_t) && (old(ctx_seen) || !ctx_seen)
 //@     invariant ctx_t > old(ctx_t) ==> !ctx_cancelled(ctx, old(ctx_t))
 //@   assigns ghost(n_set_mix), ghost(last_set_mix_epoch), ghost(last_set_mix)
+//@   assigns ghost(n_set_lhdr), ghost(set_lhdr)
 
 //@ func ProcessVoluntaryExits(ctx, spec, epc, state, ops) err
 //@   property C18
